@@ -1,5 +1,6 @@
 (* Eco/Composer/Version.v — model of pkg/ecosystem/composer/version.go (definitions only). *)
 From Verif.Base Require Import Bytes GoNum.
+From Verif.Gen Require Tables.
 From Verif.Eco Require Import VLayer.
 Local Open Scope Z_scope.
 
@@ -19,8 +20,9 @@ Definition c_stabnum (c : core) : Z := match c with CRel _ _ _ _ _ n => n | _ =>
 
 Definition stabilityStable : Z := 4.
 
+(* generated from the Go source on every run (tools/gen -> Gen/Tables.v) *)
 Definition stabilityMap : list (bytes * Z) :=
-  [ ($"dev", 0); ($"alpha", 1); ($"a", 1); ($"beta", 2); ($"b", 2); ($"RC", 3); ($"rc", 3) ].
+  Eval cbv delta [Verif.Gen.Tables.composer_stabilityMap] in Verif.Gen.Tables.composer_stabilityMap.
 
 (* ---------- devVersionPattern: dev- followed by one or more non-newline bytes ---------- *)
 Definition nl : ascii := "010"%char.
